@@ -48,21 +48,7 @@ def streams(tier, rng):
             c["skip"] = "1"
         if L.fits(c):
             rand.append(c)
-    cut = []
-    while len(cut) < n_cut:
-        c = L.rand_case(rng, tuned=True, test=False, timed=True)
-        if c["n"] == 0:
-            continue
-        sim = L.simulate(c)
-        if sim is None or sim["K"] < 2:
-            continue
-        k = rng.randrange(1, sim["K"] + 1)
-        e = sim["E"][k]
-        c["max"] = L.ns(max(0, e // 1000 + rng.choice([-1, 0, 0, 1])))
-        if rng.random() < 0.3:
-            c["min"] = L.ns(e // 1000 + rng.randrange(0, 50))
-        if L.fits(c):
-            cut.append(c)
+    cut = L.tuned_cut_cases(rng, n_cut)
     return [
         L.make_stream("c19-corpus", "c19", L.corpus("C19")),
         L.make_stream("c19-precision-zero-panics", "c19", L.corpus("loop"), sb=False,
